@@ -119,7 +119,7 @@ FRExpected(r, idx) ==
     LET F == SP!Fields(r)  pt == SP!PointOf(r, idx)  X == FRX(r) IN
     CASE r.op = "lap"      -> <<QI(LapAt(F[1], X, pt))>>
       [] r.op = "div"      -> <<QI(DivAt(F, X, pt))>>
-      [] r.op = "veclap"   -> [j \in DOMAIN F |-> QI(LapAt(F[j], X, pt))]
+      [] r.op \in {"veclap", "veclapdef"} -> [j \in DOMAIN F |-> QI(LapAt(F[j], X, pt))]
       [] r.op = "adv"      -> [j \in DOMAIN F |-> QI(AdvAt(F, X, pt)[j])]
       [] r.op = "masscons" -> <<QI(DivAt(F, X, pt))>>
       [] r.op \in {"burgers", "fisher"} -> EQ!Residual([eq |-> r.op, U |-> F, par |-> r.par, Tmax |-> r.Tmax, dim |-> r.d - 1], pt)
